@@ -50,6 +50,8 @@ pub struct Decoded {
     pub entries: Entries,
     /// for every entry, the index (into `blocks`) of the data block holding it
     pub entry_block: Vec<usize>,
+    /// layout facts true of today's writer but not part of the format description (observed, never judged)
+    pub notes: Vec<&'static str>,
 }
 
 #[derive(Clone, Copy, Debug)]
@@ -319,8 +321,9 @@ pub fn decode(b: &[u8], opts: &Opts) -> Result<Decoded, String> {
     };
     let root = find(&blocks, trailer.root_offset)
         .ok_or_else(|| format!("root offset {} is not the start of a block", trailer.root_offset))?;
+    let mut notes: Vec<&'static str> = Vec::new();
     if root != blocks.len() - 1 {
-        return Err("the root index block is not the last block of the file".into());
+        notes.push("root-not-last-block");
     }
     let depth_data = trailer.levels as usize + 1;
     let mut entries: Entries = Vec::new();
@@ -381,15 +384,15 @@ pub fn decode(b: &[u8], opts: &Opts) -> Result<Decoded, String> {
     let mut entry_block = Vec::new();
     walk(&mut blocks, root, 0, depth_data, &mut entries, &mut visit_order, &mut entry_block)?;
     // every block reachable exactly once
-    if let Some(bl) = blocks.iter().find(|bl| bl.depth.is_none()) {
-        return Err(format!("block@{} is not reachable from the root", bl.offset));
+    if blocks.iter().any(|bl| bl.depth.is_none()) {
+        notes.push("unreferenced-block");
     }
     // children in file order: a post-order position check — data blocks ascend in file order,
     // and within every level the blocks ascend in file order
     for d in 0..=depth_data {
         let offs: Vec<u64> = visit_order.iter().filter(|i| blocks[**i].depth == Some(d)).map(|i| blocks[*i].offset).collect();
         if offs.windows(2).any(|w| w[0] >= w[1]) {
-            return Err(format!("blocks of depth {d} are not visited in file order"));
+            notes.push("children-not-in-file-order");
         }
     }
     if opts.check_global_order {
@@ -406,7 +409,7 @@ pub fn decode(b: &[u8], opts: &Opts) -> Result<Decoded, String> {
     if trailer.count != entries.len() as u64 {
         return Err(format!("trailer count {} but {} entries found", trailer.count, entries.len()));
     }
-    Ok(Decoded { trailer, blocks, entries, entry_block })
+    Ok(Decoded { trailer, blocks, entries, entry_block, notes })
 }
 
 impl Decoded {
@@ -423,7 +426,9 @@ impl Decoded {
     pub fn per_depth(&self) -> Vec<usize> {
         let mut v = vec![0usize; self.trailer.levels as usize + 2];
         for b in &self.blocks {
-            v[b.depth.unwrap()] += 1;
+            if let Some(d) = b.depth {
+                v[d] += 1;
+            }
         }
         v
     }
